@@ -2079,3 +2079,16 @@ func dnssvcWiring(c *an.Ctx, rule string, fields func(dst, src string) bool, min
 		"dnsserver.ConfigTLS.TLSConfig <- agd.TLSConfig.Default":                              "DoT uses the default TLS configuration",
 	}, min)
 }
+
+// cmdConversions runs the name-agreement rule over the configuration
+// conversions of package cmd (the toInternal methods): an internal setting is
+// filled from the configuration field of the same name or through a confirmed
+// renaming.
+func cmdConversions(c *an.Ctx, rule string, fields func(dst, src string) bool, min int) {
+	sharedCodecNames(c, rule, func(fn *ssa.Function) bool {
+		k := an.FnKey(fn)
+		return strings.HasPrefix(k, "cmd.") && strings.Contains(fn.Name(), "toInternal")
+	}, fields, cmdRenamings, min)
+}
+
+var cmdRenamings = map[string]string{}
